@@ -140,18 +140,33 @@ def make_overlay(scale=None):
     t = n1_common(open(p).read())
     write_if_changed(os.path.join(odir, "common.go"), t)
     repl[p] = os.path.join(odir, "common.go")
-    p = os.path.join(SRC, "pkg/libs/log/log.go")
-    t, n = n2_log(open(p).read())
-    if n == 0:
-        problems.append("N2: no os.Exit(1) found in pkg/libs/log/log.go")
-    write_if_changed(os.path.join(odir, "log.go"), t)
-    repl[p] = os.path.join(odir, "log.go")
+    # N2 over every file of package pkg/libs/log (the Panic* helpers may have been moved out of log.go)
+    total = 0
+    ldir = os.path.join(SRC, "pkg/libs/log")
+    for fn in sorted(os.listdir(ldir)):
+        if not fn.endswith(".go") or fn.endswith("_test.go"):
+            continue
+        p = os.path.join(ldir, fn)
+        t, n = n2_log(open(p).read())
+        if n:
+            total += n
+            write_if_changed(os.path.join(odir, "log_" + fn), t)
+            repl[p] = os.path.join(odir, "log_" + fn)
+    if total == 0:
+        problems.append("N2: no os.Exit(1) found in package pkg/libs/log")
     if scale is not None:
         p = os.path.join(SRC, "pkg/rdb/reader.go")
-        t = open(p).read()
-        # the span of the chunk-limit expression as factgen (go/ast) found it in readObjectValue, whatever its form
+        # the span of the chunk-limit expression as factgen (go/ast) found it (file, offsets, text), whatever its form
         try:
-            a, b, txt = open(os.path.join(GEN, "c01_chunklimit.pos")).read().split()
+            a, b, txt, pf = open(os.path.join(GEN, "c01_chunklimit.pos")).read().split()
+            a, b = int(a), int(b)
+            if os.path.isfile(pf) and os.path.realpath(pf).startswith(os.path.realpath(SRC) + os.sep):
+                p = pf
+        except (OSError, ValueError):
+            pass
+        t = open(p).read()
+        try:
+            a, b, txt = open(os.path.join(GEN, "c01_chunklimit.pos")).read().split()[:3]
             a, b = int(a), int(b)
             raw = open(p, "rb").read()
             if b"".join(raw[a:b].split()) != txt.encode():
@@ -162,7 +177,7 @@ def make_overlay(scale=None):
                 problems.append("N3: chunk limit expression not found in pkg/rdb/reader.go")
             t = t.replace("16 * 1024 * 1024", str(scale)).replace("16*1024*1024", str(scale))
         write_if_changed(os.path.join(odir, "reader.go"), t)
-        repl[p] = os.path.join(odir, "reader.go")
+        repl[p] = os.path.join(odir, "reader.go")   # (p: the file of pkg/rdb that holds the limit, reader.go on the pinned tree)
     hooks = os.path.join(HARNESS, "hooks")
     for root, _, files in os.walk(hooks):
         for f in files:
@@ -204,7 +219,7 @@ def degrade_build(ov, exe, first_out, scale):
     write_if_changed(stub, "package main\n")
     dropped = []
     out = first_out
-    for _ in range(12):
+    for _ in range(40):
         bad = {}
         for m in re.finditer(r"^(\S+?\.go):\d+(?::\d+)?: (.*)$", out, re.M):
             bad.setdefault(m.group(1), m.group(2))
@@ -233,7 +248,8 @@ def degrade_build(ov, exe, first_out, scale):
             return 1, out
         ov2 = ov.replace(".json", "-degraded.json")
         open(ov2, "w").write(json.dumps({"Replace": repl}, indent=1, sort_keys=True))
-        rc, out = sh(["go", "build", "-tags", "verif", "-overlay", ov2, "-o", exe, "."], cwd=HARNESS, env=GOENV)
+        # -gcflags=-e: report every error of a package, not only the first ten
+        rc, out = sh(["go", "build", "-gcflags=-e", "-tags", "verif", "-overlay", ov2, "-o", exe, "."], cwd=HARNESS, env=GOENV)
         if rc == 0:
             HARNESS_DROPPED[scale] = dropped
             return 0, "degraded build: left out " + ", ".join(d[0] for d in dropped)
